@@ -467,6 +467,11 @@ func TestC03(t *testing.T) {
 	modes := []modeSpec{{0, 0}, {3, 0}, {4, seed}}
 	if hx.Thorough() {
 		modes = []modeSpec{{0, 0}, {1, 0}, {2, 0}, {3, 0}, {4, seed}, {4, seed + 1}, {4, seed + 2}, {4, seed*7 + 3}}
+		// further seeded iteration orders and schedules, until the budget
+		// runs out (every one replays from its case file)
+		for k := uint64(1); k <= 160; k++ {
+			modes = append(modes, modeSpec{4, seed*1000003 + 17 + k})
+		}
 	}
 	var fails []c03fail
 	idx := 0
